@@ -64,7 +64,7 @@ CLAIMS['C11'] = ('Bounded model checking of the cardinality operation (real oper
                  'level size in [1,1023] (z3). Not covered: unpacking of real nodes and the compute table (cut), the real- and mpz-valued result types (z3 gave no verdict '
                  'on the double products in 900 s), node/edge counts. Plus one step of the real masked relation iterator (src/dd_edge.cc iterator_templ::first_pri + first_unpr(0,.), EV+ and MT): a bound '
                  'primed variable (mask entry in [0,3] or DONT_CHANGE) at a level skipped by a one-variable fully / identity reduced relation continues exactly when the rule lets the to-value through, '
-                 'with the resolved minterm entries and unchanged accumulated value. Not covered: iteration through real nodes, free variables, next(), set iterators (whole-library level).', 'DESIGN.md 11.2 C11')
+                 'with the resolved minterm entries and unchanged accumulated value; likewise entered through first_unpr(1,.) on the relation and on a fully / quasi reduced set forest. Not covered: iteration through real nodes, free variables, next(), set iterators (whole-library level).', 'DESIGN.md 11.2 C11')
 for p, why in [
     ('C03', 'construction from minterms and evaluation'), ('C07', 'compute tables inside operations; a component harness (harness/c07_ct.cc: real ct_styles.cc table with 8 buckets via hook H4, real node headers, 3 symbolic steps) was built and measured: '
             'symbolic execution alone did not finish in 50 min / ran out of 20 GB, because of std::vector growth, entry deletion and handle recycling loops over symbolic table state'),
